@@ -17,6 +17,25 @@ fn ones_of(h: &SparseMatrix) -> Ones {
 
 /// Independent recogniser of the alist grammar for matrix `m`.
 fn recognise(text: &str, m: &Small, padded: bool) -> Result<(), String> {
+    recognise_ones(text, m.r, m.n, &m.entries().into_iter().collect(), padded)
+}
+
+/// The same for a matrix given as dimensions and a set of positions.
+fn recognise_ones(text: &str, r: usize, n: usize, ones: &Ones, padded: bool) -> Result<(), String> {
+    struct M {
+        r: usize,
+        n: usize,
+    }
+    let m = M { r, n };
+    let mut by_col: Vec<Vec<usize>> = vec![Vec::new(); n];
+    let mut by_row: Vec<Vec<usize>> = vec![Vec::new(); r];
+    for &(i, j) in ones.iter() {
+        by_col[j].push(i + 1);
+        by_row[i].push(j + 1);
+    }
+    for l in by_col.iter_mut().chain(by_row.iter_mut()) {
+        l.sort_unstable();
+    }
     let mut lines: Vec<&str> = text.split('\n').collect();
     if lines.last() != Some(&"") {
         return Err("text does not end with a newline".into());
@@ -30,8 +49,8 @@ fn recognise(text: &str, m: &Small, padded: bool) -> Result<(), String> {
             .map(|t| t.parse::<usize>().map_err(|_| format!("token {:?} is not a number", t)))
             .collect()
     };
-    let colw: Vec<usize> = (0..m.n).map(|j| m.column(j).count_ones() as usize).collect();
-    let roww: Vec<usize> = (0..m.r).map(|i| m.rows[i].count_ones() as usize).collect();
+    let colw: Vec<usize> = by_col.iter().map(|l| l.len()).collect();
+    let roww: Vec<usize> = by_row.iter().map(|l| l.len()).collect();
     let maxc = colw.iter().cloned().max().unwrap_or(0);
     let maxr = roww.iter().cloned().max().unwrap_or(0);
     if toks(lines[0])? != vec![m.n, m.r] {
@@ -68,11 +87,11 @@ fn recognise(text: &str, m: &Small, padded: bool) -> Result<(), String> {
         Ok(())
     };
     for j in 0..m.n {
-        let want: Vec<usize> = (0..m.r).filter(|&i| m.get(i, j)).map(|i| i + 1).collect();
+        let want: Vec<usize> = by_col[j].clone();
         check_list(lines[4 + j], want, maxc, format!("column line {}", j))?;
     }
     for i in 0..m.r {
-        let want: Vec<usize> = (0..m.n).filter(|&j| m.get(i, j)).map(|j| j + 1).collect();
+        let want: Vec<usize> = by_row[i].clone();
         check_list(lines[4 + m.n + i], want, maxr, format!("row line {}", i))?;
     }
     Ok(())
@@ -150,6 +169,93 @@ fn check_roundtrip(r: usize, n: usize, mask: u64, acc: &mut Acc) {
             if mask % 97 == 5 {
                 acc.sample(|| json!({"matrix": m.alist_like(), "padded": padded, "text": text}));
             }
+        }
+    }
+}
+
+/// Larger matrices (weights and indices of two to four digits, thousands of lines), built in a
+/// scrambled insertion order; same oracle as check_roundtrip.
+fn big_matrices(thorough: bool) -> Vec<(String, usize, usize, Vec<(usize, usize)>)> {
+    let mut out: Vec<(String, usize, usize, Vec<(usize, usize)>)> = Vec::new();
+    out.push(("row-weight-12:2x30".into(), 2, 30, (0..12).map(|j| (0, 2 * j + 1)).chain([(1, 0), (1, 29)]).collect()));
+    out.push(("col-weight-11:12x3".into(), 12, 3, (0..11).map(|i| (i, 1)).chain([(11, 0), (0, 2)]).collect()));
+    out.push(("all-ones:1x5000".into(), 1, 5000, (0..5000).map(|j| (0, j)).collect()));
+    out.push(("all-ones:5000x1".into(), 5000, 1, (0..5000).map(|i| (i, 0)).collect()));
+    out.push(("zero:100x200".into(), 100, 200, vec![]));
+    out.push(("identity-plus:300x300".into(), 300, 300, (0..300).flat_map(|i| [(i, i), (i, (i * 7 + 3) % 300)]).collect()));
+    for (r, n) in if thorough { vec![(20usize, 70usize), (70, 20), (9, 1100), (128, 129)] } else { vec![(20usize, 70usize), (9, 1100)] } {
+        let mut x = 0x1234_5678_9ABC_DEF1u64 ^ ((r * 1000 + n) as u64);
+        let mut e = Vec::new();
+        for i in 0..r {
+            for j in 0..n {
+                x ^= x << 13;
+                x ^= x >> 7;
+                x ^= x << 17;
+                if x % 3 == 0 {
+                    e.push((i, j));
+                }
+            }
+        }
+        out.push((format!("dense:{}x{}", r, n), r, n, e));
+    }
+    for (_, _, _, e) in out.iter_mut() {
+        e.sort_unstable();
+        e.dedup();
+    }
+    out
+}
+
+fn check_roundtrip_big(name: &str, r: usize, n: usize, entries: &[(usize, usize)], acc: &mut Acc) {
+    let want: Ones = entries.iter().cloned().collect();
+    let replay = json!({"kind": "big", "name": name});
+    for order in 0..3usize {
+        let mut e = entries.to_vec();
+        match order {
+            0 => {}
+            1 => e.reverse(),
+            _ => e.sort_by_key(|&(i, j)| (std::cmp::Reverse(j % 7), i % 5, j, i)),
+        }
+        let mut h = SparseMatrix::new(r, n);
+        for &(i, j) in &e {
+            h.insert(i, j);
+        }
+        for padded in [true, false] {
+            acc.evals += 1;
+            acc.nontrivial += 1;
+            let key = format!("alist:{}:big:{}:order{}", if padded { "padded" } else { "unpadded" }, name, order);
+            let text = match guard(|| if padded { h.alist() } else { h.alist_no_padding() }) {
+                Ok(t) => t,
+                Err(e) => {
+                    acc.violate(key, format!("writer panicked: {}", e), replay.clone());
+                    return;
+                }
+            };
+            if let Err(e) = recognise_ones(&text, r, n, &want, padded) {
+                acc.violate(key, format!("text violates the format: {}", e), replay.clone());
+                return;
+            }
+            match guard(|| SparseMatrix::from_alist(&text)) {
+                Ok(Ok(h2)) => {
+                    if h2.num_rows() != r || h2.num_cols() != n || ones_of(&h2) != want {
+                        acc.violate(key, "parse(write(H)) != H".into(), replay.clone());
+                        return;
+                    }
+                    let again = if padded { h2.alist() } else { h2.alist_no_padding() };
+                    if again != text {
+                        acc.violate(key, "write(parse(write(H))) != write(H)".into(), replay.clone());
+                        return;
+                    }
+                }
+                Ok(Err(e)) => {
+                    acc.violate(key, format!("parser rejected the writer's text: {}", e), replay.clone());
+                    return;
+                }
+                Err(e) => {
+                    acc.violate(key, format!("parser panicked on the writer's text: {}", e), replay.clone());
+                    return;
+                }
+            }
+            acc.outcome(&text);
         }
     }
 }
@@ -314,6 +420,13 @@ fn replay_element(v: &Value, acc: &mut Acc) {
             acc,
         ),
         Some("text") => check_text(v["text"].as_str().unwrap(), "replay", acc),
+        Some("big") => {
+            for (name, r, n, e) in big_matrices(true) {
+                if Some(name.as_str()) == v["name"].as_str() {
+                    check_roundtrip_big(&name, r, n, &e, acc);
+                }
+            }
+        }
         _ => machinery("C08: unknown replay element"),
     }
 }
@@ -338,6 +451,9 @@ pub fn run(run: &Run) -> i32 {
             let a = par_fold(1u64 << (r * n), |mask, a| check_roundtrip(r, n, mask, a));
             acc = acc.merge(a);
         }
+        let big = big_matrices(run.thorough());
+        let a = par_items(&big, |(name, r, n, e), a| check_roundtrip_big(name, *r, *n, e, a));
+        acc = acc.merge(a);
         // malformed-text menu
         let maxcols = if run.thorough() { 4 } else { 3 };
         for ncl in 0..=maxcols {
@@ -365,7 +481,7 @@ pub fn run(run: &Run) -> i32 {
         run,
         acc,
         Coverage {
-            rule: "round trip: every matrix of the listed shapes (all 2^(r*n) masks) x 2 insertion orders x padded/unpadded, text checked by an independent grammar recogniser and parsed back; totality: full product of 12 headers x 3^3 skipped lines x 11^k column lines (k up to the bound) x trailing newline, plus every single-token deletion/duplication/substitution, line deletion/duplication and byte truncation of the 128 valid alists of M(2,3). Non-trivial = irregular column weights or zero matrix (round trip), text the reference parse rejects (totality).".into(),
+            rule: "round trip: every matrix of the listed shapes (all 2^(r*n) masks) x 2 insertion orders x padded/unpadded, text checked by an independent grammar recogniser and parsed back; the same for larger matrices in 3 insertion orders (row weight 12, column weight 11, 1x5000 and 5000x1 all ones, 100x200 zero, 300x300, pseudo-random dense 20x70 and 9x1100; thorough also 70x20, 128x129); totality: full product of 12 headers x 3^3 skipped lines x 11^k column lines (k up to the bound) x trailing newline, plus every single-token deletion/duplication/substitution, line deletion/duplication and byte truncation of the 128 valid alists of M(2,3). Non-trivial = irregular column weights or zero matrix (round trip), text the reference parse rejects (totality).".into(),
             exhaustive: true,
             extra: serde_json::Map::new(),
             graph: None,
